@@ -70,6 +70,11 @@ def run(ctx):
     part2 = os.path.join(d2, "c20redis.part")
     routerfam.partition_by_name(os.path.join(d2, "c20redis.ndjson"), part2)
     routerfam.validate(ctx, part2, only=["Inv_C04_", "Inv_C03_Header", "Inv_C03_Decodable", "Inv_C07_StoreOwnKey", "Unconsumable"], require_events=3000, timeout=3000)
+    # the memory cache's interface: it keeps no reference to the key / value buffers of its callers
+    cdrv = vf.build_driver("cachedrv")
+    kt = ctx.path("keep.ndjson")
+    ctx.driver(cdrv, ["-out", kt, "-pairs", 10000 if ctx.quick else 100000], timeout=900)
+    ctx.validate("MemCacheTrace", kt, lambda ev, inv: "%s:memcache" % inv, only=["Inv_C20_", "Unconsumable"], require_events=500)
     # transports: cancellations and connection failures (C06 / C05 style runs) with the pool hook active
     xdrv = vf.build_driver("xportdrv", race=race)
     for mode, n in (("reuse", 1500), ("pipe", 1500), ("dohcancel", 1200)) + ((("fault", 0), ("life", 0)) if race else ()):
